@@ -1,4 +1,6 @@
 import SJ.Proofs.Facts
+import SJ.Proofs.Shared
+import SJ.Generated.GoPools
 /-
 C20 — Independent objects can be used from concurrent goroutines.
 -/
@@ -18,5 +20,61 @@ theorem C20_go_sites :
 theorem C20_pool_sites : poolSites.length = 11 := by rw [Facts.pool_sites]; decide
 /-- Every assignment of the parse entry points targets the per-call object. -/
 theorem C20_parser_state : parseAssignments.length = 15 := by rw [Facts.parse_assignments]; decide
+
+open SJ.Shared
+
+/-- **Every pool site of the source obeys the discipline** (regenerated: per `<pool>.Get()` site, what is done to the
+    object in source order along the branch of the Get): the first thing done to a pooled object is `Reset` (or, for
+    byte buffers, a re-slice to nothing, or the group re-slice / filling `Read` / re-slice to the count read), nothing
+    touches it after `Put`, and no site takes a second object into the same variable while one is held. -/
+theorem C20_pool_discipline : poolDiscipline.all (fun s => disciplinedCalls s.2) = true := by decide
+
+/-- The six sites, by pool: nothing else in the package takes an object from a pool … -/
+theorem C20_pool_sites_named : poolDiscipline.map (·.1) =
+    ["ParseNDStream:tmpPool", "Serializer.decBlock:s2Readers", "encBlock:s2FastWriters", "encBlock:s2Writers",
+     "encBlock:zEncFast", "serializeNDStream:dstPool"] := by decide
+
+/-- … and the only `Put` of something that was not taken from the pool in the same function is the chunk buffer of a
+    recycled stream result (`tmpPool.Put(v.Message)`: the caller promises not to touch what it sends on `reuse`). -/
+theorem C20_foreign_puts : poolForeignPuts = ["ParseNDStream:tmpPool.Put(v.Message)"] := by decide
+
+/-- A site accepted by the check is a disciplined program of the model. -/
+theorem C20_site_is_disciplined {L A I O : Type} (a : L → A) (i : L → I) (ab : L → O → L) (cs : List String)
+    (h : disciplinedCalls cs = true) : disciplined (callsToProgram a i ab cs) = true :=
+  disciplinedCalls_sound a i ab cs h
+
+/-- **Non-interference, every schedule.** N goroutines (`P g` is the program of goroutine `g`: operations on its own
+    state, `Get`/`Reset`/use/`Put` on shared pools, calls of shared stateless functions such as `zDec.DecodeAll`), any
+    initial pool content in arbitrary states, any schedule — including which pooled object a `Get` returns. If the
+    programs obey the discipline above and `Reset` makes an object's state independent of its past, then after ANY
+    schedule prefix every goroutine's state and outputs are exactly those of running the consumed prefix of its
+    program alone on empty pools. -/
+theorem C20_noninterference {S A I O L : Type} (sc : Scratch S A I O) (hc : ResetContract sc) (objs : List (Nat × S)) (l0 : Nat → L)
+    (P : Nat → Program L A I O) (hd : ∀ g, disciplined (P g) = true) (sched : Sched) (g : Nat) :
+    result (run sc (init sc objs l0 P) sched) g = runSolo sc (l0 g) ((P g).take (turns g sched)) ∧
+    ((run sc (init sc objs l0 P) sched).gs g).prog = (P g).drop (turns g sched) :=
+  noninterference sc hc objs l0 P hd sched g
+
+/-- Every goroutine can always step (no operation blocks), and once every goroutine has had its turns the results
+    are the solo results. -/
+theorem C20_complete {S A I O L : Type} (sc : Scratch S A I O) (hc : ResetContract sc) (objs : List (Nat × S)) (l0 : Nat → L)
+    (P : Nat → Program L A I O) (hd : ∀ g, disciplined (P g) = true) (sched : Sched)
+    (hfair : ∀ g, (P g).length ≤ turns g sched) (g : Nat) :
+    ((run sc (init sc objs l0 P) sched).gs g).prog = [] ∧
+    result (run sc (init sc objs l0 P) sched) g = runSolo sc (l0 g) (P g) :=
+  complete sc hc objs l0 P hd sched hfair g
+
+/-- **Exclusive ownership**: in every reachable state a pooled object is held by at most one goroutine through one
+    variable, is never at once held and in a pool, and never twice in the pools. -/
+theorem C20_pool_exclusive {S A I O L : Type} (sc : Scratch S A I O) (hc : ResetContract sc) (objs : List (Nat × S)) (l0 : Nat → L)
+    (P : Nat → Program L A I O) (hd : ∀ g, disciplined (P g) = true) (sched : Sched) :
+    let s := run sc (init sc objs l0 P) sched
+    let done := fun g => (P g).take (turns g sched)
+    (∀ g v g' v' r, Holds s (done g) g v r → Holds s (done g') g' v' r → g = g' ∧ v = v') ∧
+    (∀ g v r k, Holds s (done g) g v r → r ∉ s.pools k) ∧
+    (∀ k, (s.pools k).Nodup) ∧
+    (∀ k k' r, r ∈ s.pools k → r ∈ s.pools k' → k = k') :=
+  let h := pool_exclusive sc hc objs l0 P hd sched
+  ⟨h.1, h.2.1, h.2.2.1, h.2.2.2.1⟩
 
 end SJ.Properties.C20
